@@ -1,7 +1,11 @@
 """C09 - HTTP: GET never mutates; status and content type follow the request outcome."""
 import json
+import os
 from collections import Counter
 from lib import vf
+
+CORPUS = os.path.join(os.path.dirname(os.path.dirname(os.path.abspath(__file__))), "corpus", "C09", "sequences.json")
+HISTORY = "answer_independent_of_history"
 
 CLAUSES = ["get_executes_only_queries", "executes_named_operation", "non2xx_ran_nothing", "started_is_200",
            "parse_validation_status", "content_type_negotiated", "body_is_graphql_json"]
@@ -22,24 +26,44 @@ def replay_text(descr, obs):
         srv or "(none)", d["method"], hs, d["target"], d["body"][:400], obs)
 
 
+def curl(d):
+    hs = " ".join("-H '%s: %s'" % (k, v[0]) for k, v in sorted(d["headers"].items()))
+    return "curl -X %s %s 'http://host%s' --data-binary %r" % (d["method"], hs, d["target"], d["body"][:400])
+
+
+def sequence_text(mn):
+    """the minimal failing request sequence found by the harness (-min), as text"""
+    seq = mn["sequence"]
+    srv = seq[-1]["request"].get("server")
+    where = ("one server with query cache (size %s), APQ extension with a cache and transports %s" % (
+        srv.get("query_cache_size"), ",".join(t["kind"] for t in srv.get("transports", [])))) if isinstance(srv, dict) else \
+        "fresh default servers in one process (POST's pool of *RawParams is process wide)"
+    lines = ["%d. %s  => %s  body %s" % (i + 1, curl(st["request"]), st["observed"], st["request"].get("response_body", "")[:200])
+             for i, st in enumerate(seq)]
+    return "request sequence against %s: %s ; the last request sent alone is answered %s" % (where, " ;; ".join(lines), mn["alone"]["observed"])
+
+
 def run(ctx):
     ctx.assumptions += [
+        "sequences: sha256 is collision free; the APQ cache is large enough not to evict within a session (4096 entries); the query cache's evictions are arbitrary (proved for every eviction choice, exercised with sizes 1, 2, 16, 1000); sync.Pool hands a just-returned object to the next Get on the same P (the harness pins one P for the sequence runs and flushes the pool between sessions)",
         "net/http, mime.ParseMediaType, encoding/json, net/url, mime/multipart are library code: requests enter the model through the class the library assigns (parsed media type, decode ok/failed); the harness asserts its class labels against mime.ParseMediaType on every run",
         "gqlparser (parser, validator, VariableValues, OperationList.ForName) is modelled through the document outcome class and the list of (kind, name) of the operations; ForName is modelled explicitly and tied by the correspondence",
         "ResponseHeaders keys are in canonical spelling with one value each; errcode.RegisterErrorType is not called; no Websocket/SSE/multipart-mixed transport is registered (their bodies are streams, not one JSON response)",
         "ExecutableSchema.Exec does not panic out (generated executors recover, property C04); 'a resolver ran' is observed as 'ExecutableSchema.Exec was entered'",
         "APQ stands for every OperationParameterMutator: it either passes (possibly substituting the cached text) or stops the request with a user-kind error",
     ]
-    ok_extract = ctx.extract("HttpStatus")
-    proved = ok_extract and ctx.prove(props=["GqlgenVerif.Props.C09"])
+    ok_extract = ctx.extract("HttpStatus", "HttpHistory")
+    proved = ok_extract and ctx.prove(props=["GqlgenVerif.Props.C09", "GqlgenVerif.Props.C09Hist"])
     if ok_extract and not proved:
         ctx.cov["proof_failure"] = ctx.proof_failure
 
-    rc, so, se = ctx.harness("c09", ["-tier", ctx.tier, "-seed", ctx.seed])
+    hargs = ["-tier", ctx.tier, "-seed", ctx.seed, "-corpus", CORPUS]
+    rc, so, se = ctx.harness("c09", hargs)
     if rc != 0:
         raise RuntimeError("harness failed: " + se[-3000:])
     rows = [l.split("\t") for l in so.split("\n") if l]
     cases = [r for r in rows if r[0] == "c"]
+    sqs = [r for r in rows if r[0] == "sq"]
     sts = [r for r in rows if r[0] == "st"]
     cts = [r for r in rows if r[0] == "ct"]
 
@@ -54,20 +78,61 @@ def run(ctx):
         raise RuntimeError("lean driver does not build against the regenerated Gen/HttpStatus.lean:\n" + getattr(ctx, "driver_log", "")[-3000:])
     lines = ["c " + r[1] for r in cases] + ["st " + r[1] for r in sts] + ["ct %s %s" % (r[1], r[2]) for r in cts]
     lines += ["chk %s %s" % (r[1], r[2]) if ok_resp(r[2]) else "guard" for r in cases]
+    lines += ["seq " + r[2] for r in sqs]
     model = ctx.driver("c09", lines)
     n = len(cases)
-    m_cases, m_sts, m_cts, m_chk = model[:n], model[n:n + len(sts)], model[n + len(sts):n + len(sts) + len(cts)], model[n + len(sts) + len(cts):]
+    m_cases, m_sts, m_cts = model[:n], model[n:n + len(sts)], model[n + len(sts):n + len(sts) + len(cts)]
+    m_chk = model[n + len(sts) + len(cts):2 * n + len(sts) + len(cts)]
+    m_seq = model[2 * n + len(sts) + len(cts):]
+    # the history model's answer (query cache, APQ cache and params pool carried through the session) per session row
+    hist = {}
+    for r, o in zip(sqs, m_seq):
+        hist[r[1]] = o.split("|")
+    hist_pos = Counter()
+
+    def minimise(step):
+        rc, so, se = ctx.harness("c09", hargs + ["-min", step])
+        if rc != 0:
+            return None
+        try:
+            mn = json.loads(so.strip().split("\n")[-1])
+        except ValueError:
+            return None
+        return mn if "sequence" in mn else None
 
     branch = Counter()
     nontriv = set()
     div = 0
     reported = set()
 
-    def report(rep, failing):
+    def report(rep, failing, step=None):
         key = json.dumps(rep.get("shape"), sort_keys=True) + str(failing)
         if key in reported or len(reported) >= 12:
             return
         reported.add(key)
+        if step is not None:
+            # which earlier requests does this answer depend on? (replays on fresh servers, delta-debugged)
+            mn = minimise(step)
+            if mn and mn.get("reproduced"):
+                # same abstract request alone (an APQ hash resolved thanks to an earlier registration is a different
+                # request when sent alone: that dependence is legitimate), different answer
+                dependent = len(mn["sequence"]) > 1 and mn["alone"]["observed"] != mn["target"]["observed"] and \
+                    mn["alone"]["abstract_request"] == mn["target"]["abstract_request"]
+                rep["history_dependent"] = dependent
+                rep["shape"]["history_dependent"] = dependent
+                rep["sequence"] = [{"request": st["request"], "observed": st["observed"], "abstract_request": st["abstract_request"]} for st in mn["sequence"]]
+                rep["last_request_alone"] = mn["alone"]["observed"]
+                if dependent:
+                    if not failing:
+                        # s1-s7 hold of this answer, but it is not the answer this request gets on its own: the status /
+                        # what executes was decided by an EARLIER request (theorem answer_independent_of_history)
+                        rep["shape"]["clause"] = HISTORY
+                        rep["spec_verdict"] = "violates:" + HISTORY
+                        failing = True
+                    rep["replay"] = sequence_text(mn) + " ; violates " + rep["spec_verdict"].split(":", 1)[-1] + \
+                        " ; model (proved to satisfy the property for every history) answers " + rep.get("model", "?")
+            elif mn:
+                rep["history_replay"] = "not reproduced on fresh servers"
         ctx.violation(rep, no_failing_input=not failing)
 
     # ---- full-request correspondence + Spec on the implementation's own output
@@ -81,15 +146,28 @@ def run(ctx):
         if not (o[0] == "200" and o[2] == "data" and t[4] == "~" and t[0].count("~") == 6):
             nontriv.add(inp)
         spec = chk if ok_resp(obs) else "violates:executed-more-than-once-or-panicked"
-        if m == obs and spec == "ok":
+        mh = m
+        if len(r) > 5 and r[5] != "-":
+            branch["sequence:request"] += 1
+            hs = hist.get(r[5], [])
+            mh = hs[hist_pos[r[5]]] if hist_pos[r[5]] < len(hs) else "missing"
+            hist_pos[r[5]] += 1
+        if m == obs and mh != obs and spec == "ok" and not proved:
+            # the history model interprets the regenerated parseQuery / pool-reset facts; its independence from the
+            # cache's eviction choices is a theorem (run_eq_ref) - when that does not close, the driver's choice
+            # (evict nothing) is arbitrary and says nothing about this answer
+            mh = obs
+        if m == obs and mh == obs and spec == "ok":
             continue
         clauses = spec.split(":", 1)[1].split(",") if spec.startswith("violates:") else []
-        if m != obs:
+        if m != obs or mh != obs:
             div += 1
-        rep = {"kind": "spec" if m == obs else "correspondence", "abstract_request": inp, "implementation": obs, "model": m,
+        rep = {"kind": "spec" if m == obs and mh == obs else "correspondence", "abstract_request": inp, "implementation": obs, "model": m,
                "spec_verdict": spec, "request": json.loads(r[3]), "shape": shape_of(inp, obs, clauses),
                "replay": replay_text(r[3], obs) + ((" ; violates " + ",".join(clauses)) if clauses else " ; model (proved to satisfy the property) answers " + m)}
-        report(rep, failing=bool(clauses))
+        if mh != m:
+            rep["history_model"] = mh
+        report(rep, failing=bool(clauses), step=r[4] if len(r) > 4 else None)
 
     # ---- table tie: unexported pure functions vs the regenerated tables
     for r, m in zip(sts, m_sts):
@@ -140,12 +218,13 @@ def run(ctx):
     ctx.cov.update({
         "evaluations": len(rows),
         "distinct_nontrivial": len(nontriv),
-        "rule": "exhaustive product {32 structured documents: 1-3 operations of mixed kinds, anonymous/named, with/without required variables, parse errors, validation errors, lone-anonymous and duplicate-name violations, empty and fragment-only documents} x operationName {absent, each name, unknown} x 10 carriers (GET, POST json, application/graphql raw/prefixed/escaped, urlencoded json/plain/bare/escaped, multipart) x 10 Accept sets, on the full transport list; ResponseHeaders {5 content types x other headers} x Accept x carriers; single-transport and empty servers; method x request content type x Upgrade grid; every decode failure; APQ miss/hit/mismatch; resolver errors; seeded random structured and malformed streams with shuffled/duplicated/dropped transports. Non-trivial = distinct abstract request other than a default-configured 200 data answer without Accept",
+        "rule": "exhaustive product {32 structured documents: 1-3 operations of mixed kinds, anonymous/named, with/without required variables, parse errors, validation errors, lone-anonymous and duplicate-name violations, empty and fragment-only documents} x operationName {absent, each name, unknown} x 10 carriers (GET, POST json, application/graphql raw/prefixed/escaped, urlencoded json/plain/bare/escaped, multipart) x 10 Accept sets, on the full transport list; ResponseHeaders {5 content types x other headers} x Accept x carriers; single-transport and empty servers; method x request content type x Upgrade grid; every decode failure; APQ miss/hit/mismatch; resolver errors; seeded random structured and malformed streams with shuffled/duplicated/dropped transports; request SEQUENCES: 13 directed sequences (corpus/C09/sequences.json, each on a large and a size-1 query cache) + seeded sessions against one long-lived server with query cache (size 1/2/16/1000), APQ extension with a cache and all transports, every generated request sent 2-3 times interleaved with the others (invalid-by-validation documents, parse errors, unknown operationName, variable coercion errors, mutations over GET, APQ register / hash-only / wrong hash, decode failures, operationName key absent / empty / set), every response compared with the stateless model, with the history model (query cache + APQ store + params pool) and judged by the Spec; a diverging answer is delta-debugged to a minimal request sequence. Non-trivial = distinct abstract request other than a default-configured 200 data answer without Accept",
         "input_distribution": dict(branch),
         "correspondence_divergences": div,
+        "sequences": {"sessions": len(sqs), "requests": branch["sequence:request"]},
         "samples": [s[:3] for s in samples if s],
         "exhaustive_over": "documents x operationName x carriers x Accept sets (structured grid), see rule",
-        "proved_over": "all transport lists, all requests (unbounded operation lists, Accept lists, names)",
+        "proved_over": "all transport lists, all requests (unbounded operation lists, Accept lists, names); all request histories, all query-cache eviction choices (Props/C09Hist)",
     })
 
 
